@@ -571,4 +571,3 @@ func (h *h1) epochCheck(clause string, live bool) {
 		}
 	}
 }
-
